@@ -291,6 +291,42 @@ example : loadRegion (some { name := none, dh := some 1, polygons := some [], cl
 example : cellCounts ({ origins := [(0, 0), (1, 0)], dh := 1, name := none, magnitudes := some [4, 5] } : Region).afterDict
     [{ id := "a".toList, ms := 0, lat := 1/2, lon := 3/2, depth := 0, mag := 4 }] = [0, 1] := by decide +kernel
 
+/-! ## phase 2: the datetime-indexed frame; events sharing an origin time -/
+
+/-- C14 (DataFrame with datetime index): same events, same catalog id as through the default frame — for EVERY
+    assignment of origin times, in particular when several events (also the first one) share a millisecond -/
+theorem dataframe_dt_roundtrip {R} (cat : Catalog R) (h : ∀ e ∈ cat.events, e.id.length ≤ 256) :
+    (fromDataframeL (R := R) (toDataframeDt cat)).events = cat.events
+      ∧ (fromDataframeL (R := R) (toDataframeDt cat)).catalogId = (if cat.events = [] then none else cat.catalogId) := by
+  have : (toDataframeDt cat).map (·.row) = toDataframe cat := by
+    simp [toDataframeDt, List.map_map, Function.comp_def]
+  unfold fromDataframeL
+  rw [this]
+  exact dataframe_roundtrip cat h
+
+/-- positional reading makes the index labels irrelevant: relabelling the rows arbitrarily changes nothing -/
+theorem frame_labels_irrelevant {R} (df : List LRow) (f : Int → Int) :
+    fromDataframeL (R := R) (df.map (fun r => { r with label := f r.label })) = fromDataframeL df := by
+  simp [fromDataframeL, List.map_map, Function.comp_def]
+
+/-- why a label-based read of the catalog id is NOT equivalent (the class of the seeded change C14_6): when the first
+    event shares its origin time with another one, the label of row 0 selects at least two rows — not a scalar -/
+theorem label_lookup_not_scalar {R} (cat : Catalog R) (e₀ e₁ : Event) (rest : List Event)
+    (hev : cat.events = e₀ :: e₁ :: rest) (hms : e₁.ms = e₀.ms) :
+    2 ≤ (atLabel (toDataframeDt cat) e₀.ms).length := by
+  simp [atLabel, toDataframeDt, toDataframe, hev, hms]
+
+/-- … and with pairwise distinct origin times it selects exactly the first row (so the difference only shows on
+    doublets): stated for the two-event head -/
+example : atLabel (toDataframeDt (R := Unit)
+      { events := [{ id := "a".toList, ms := 5, lat := 0, lon := 0, depth := 0, mag := 0 },
+                   { id := "b".toList, ms := 6, lat := 0, lon := 0, depth := 0, mag := 0 }],
+        catalogId := some 7, name := none, region := none }) 5 = [some 7] := by decide +kernel
+example : atLabel (toDataframeDt (R := Unit)
+      { events := [{ id := "a".toList, ms := 5, lat := 0, lon := 0, depth := 0, mag := 0 },
+                   { id := "b".toList, ms := 5, lat := 1, lon := 0, depth := 0, mag := 0 }],
+        catalogId := some 7, name := none, region := none }) 5 = [some 7, some 7] := by decide +kernel
+
 /-- the hypotheses are satisfiable: the old failure instant, an id with delimiters, the identity codec -/
 example : EventOk { id := "a,b\" ;".toList, ms := -1097606850620, lat := -90, lon := 180, depth := 5, mag := 9/2 } := by
   refine ⟨by decide, by decide, by decide⟩
